@@ -103,7 +103,12 @@ FUNCS = {
         ('ROUNDDOWN({0},{1})', ('frac', 'digits')),
         ('{0}+{1}', ('sym', 'sym')),
         ('IFERROR({0},{1})', ('err', 'sym')),
-        ('IFNA({0},{1})', ('err', 'txt'))],
+        ('IFNA({0},{1})', ('err', 'txt')),
+        # long argument lists, the two arrays far apart
+        ('SWITCH(4,1,{0},2,"b",3,"c",4,{1},"d")', ('sym', 'sym')),
+        ('SWITCH(4,{0},"a",2,"b",3,"c",4,{1},"d")', ('sym', 'sym')),
+        ('SWITCH(7,1,"a",{0},"b",3,"c",4,"e",{1})', ('sym', 'sym')),
+        ('IFS(FALSE,"a",{0}>2,"b",FALSE,"c",FALSE,"d",{1}>0,"e")', ('cmp', 'cmp'))],
     3: [('IF({0},{1},{2})', ('bool', 'sym', 'sym')),
         ('IF({0}>2,{1},{2})', ('cmp', 'sym', 'txt')),
         ('MID({0},{1},{2})', ('txt', 'count', 'count')),
